@@ -49,7 +49,7 @@ def prove_if_present(chk, names):
 def spec_id(spec):
     if "hex" in spec:
         return spec.get("id") or ("hex:" + spec["hex"][:24])
-    return "%s:%s:%d" % (spec["seed"], spec["profile"], spec["index"])
+    return "%s:%s:%d%s" % (spec["seed"], spec["profile"], spec["index"], "+core" if spec.get("core_variant") else "")
 
 
 def load_module(spec):
@@ -67,6 +67,10 @@ def load_module(spec):
                 exports.append((bytes(e.name), e.index))
         return m, b, imp, exports
     m = module_for(spec["seed"], spec["profile"], spec["index"])
+    if spec.get("core_variant"):
+        meta = m.meta
+        m = core_variant(m, m.meta["imports_spec"])
+        m.meta = meta
     if spec.get("rename_exports"):
         # -m collides with exports called f<N> (a recorded finding of C09): use neutral names
         ren = {}
@@ -470,3 +474,209 @@ def replay_obj(res, extra=None):
     if extra:
         o.update(extra)
     return o
+
+
+# ------------------------------------------------------------------------------- sim-semantics tie (Model/Sim.lean source semantics vs V8 vs real)
+CORE_OPS = {"nop", "unreachable", "drop", "select", "local.get", "local.set", "local.tee", "block", "loop", "if", "br", "br_if",
+            "br_table", "return", "call", "call_indirect", "i32.const", "i64.const", "f32.const", "f64.const"}
+
+
+def _is_core_op(op):
+    if op in CORE_OPS:
+        return True
+    o = A.OPS.get(op)
+    return o is not None and o.imm == "none" and o.prefix in (None, 0xFC) and op not in ("memory.size", "memory.grow")
+
+
+def _walk(body):
+    for ins in body:
+        yield ins
+        if ins.body:
+            for x in _walk(ins.body):
+                yield x
+        if ins.else_body:
+            for x in _walk(ins.else_body):
+                yield x
+
+
+def core_variant(m, imp):
+    """A valid module in the core covered by Model/Sim.lean derived from m: every global.get becomes the constant the
+    global is initialised with, every global.set a drop (memory instructions stay; such functions are left out)."""
+    import copy
+    m2 = copy.deepcopy(m)
+    gts = m2.global_types()
+    n_imp = sum(1 for i in m2.imports if i.kind == "global")
+    ords = [n for n, i in enumerate(m2.imports) if i.kind == "global"]
+    gl = (imp or {}).get("globals", {})
+
+    def gval(k):
+        if k < n_imp:
+            return int(gl.get(ords[k], gl.get(str(ords[k]), 0)))
+        return e2e.const_value(m2, m2.globals[k - n_imp].init, imp)
+
+    def rewrite(body):
+        out = []
+        for ins in body:
+            if ins.op == "global.get":
+                vt = gts[ins.imm[0]].valtype
+                w = 32 if vt in (A.I32, A.F32) else 64
+                v = gval(ins.imm[0]) & ((1 << w) - 1)
+                if vt in (A.I32, A.I64) and v >= 1 << (w - 1):
+                    v -= 1 << w
+                out.append(A.Instr(A.VT_NAME[vt] + ".const", v))
+            elif ins.op == "global.set":
+                out.append(A.Instr("drop"))
+            else:
+                if ins.body is not None:
+                    ins.body = rewrite(ins.body)
+                if ins.else_body is not None:
+                    ins.else_body = rewrite(ins.else_body)
+                out.append(ins)
+        return out
+    for f in m2.funcs:
+        f.body = rewrite(f.body)
+    return m2
+
+
+def sim_plan(m):
+    """(omitted defined-function indices, {func index: reachable set}) — static call-graph reachability"""
+    nimp = sum(1 for i in m.imports if i.kind == "func")
+    omitted = set()
+    direct = {}
+    indirect = {}
+    for k, f in enumerate(m.funcs):
+        fi = nimp + k
+        ops = list(_walk(f.body))
+        if not all(_is_core_op(i.op) for i in ops):
+            omitted.add(fi)
+        direct[fi] = set(i.imm[0] for i in ops if i.op == "call")
+        indirect[fi] = any(i.op == "call_indirect" for i in ops)
+    tablefuncs = set(f for seg in m.elems for f in seg.funcs)
+
+    def reach(f0):
+        seen, todo = set(), [f0]
+        while todo:
+            f = todo.pop()
+            if f in seen:
+                continue
+            seen.add(f)
+            if f >= nimp:
+                todo += list(direct[f])
+                if indirect[f]:
+                    todo += list(tablefuncs)
+        return seen
+    return nimp, omitted, reach
+
+
+def sim_lines(join, m, imp, calls, exports, depth=6000):
+    """Driver lines for the module-level run of every call whose static call graph stays inside the covered core.
+    Returns (lines, [(line index, call number)], elem line index | None)."""
+    nimp, omitted, reach = sim_plan(m)
+    lines, fl = et.module_lines(join, m)
+    keep = []
+    for k, li in enumerate(fl):
+        if nimp + k in omitted:
+            lines[li] = None
+    lines = [l for l in lines if l is not None]
+    elem_at = None
+    tabs = m.all_tables()
+    if tabs:
+        segs = ";".join("%d:%s" % (e2e.const_value(m, s.offset, imp) & 0xFFFFFFFF, ",".join(str(f) for f in s.funcs)) for s in m.elems) or "-"
+        elem_at = len(lines)
+        lines.append("E elem %d %s" % (tabs[0].limits.min, segs))
+    exd = {}
+    for nm, f in exports:
+        exd.setdefault(bytes(nm), f)
+    runs = []
+    ncallers = [0]
+    sim_lines.last_callers = ncallers
+    for cn, (nm, args) in enumerate(calls):
+        f = exd[bytes(nm)]
+        r = reach(f)
+        if any(x < nimp or x in omitted for x in r):
+            continue
+        if len(r) > 1:
+            ncallers[0] += 1
+        runs.append((len(lines), cn))
+        lines.append("E mrun %d %d %s" % (depth, f, ",".join("%s:%x" % (t, b) for t, b in args) or "-"))
+    return lines, runs, elem_at
+
+
+def parse_sim_out(s):
+    """`val i32:ff` / `val ` / `trap 1` / other -> result in e2e shape, or None when outside val/trap"""
+    w = s.split()
+    if not w:
+        return None
+    if w[0] == "val":
+        return ("val", [(x.split(":")[0], int(x.split(":")[1], 16)) for x in w[1:]])
+    if w[0] == "trap":
+        return ("trap", e2e.TRAP_CLASS.get(int(w[1]), "trap" + w[1]))
+    return None
+
+
+def sim_tie(env, results, driver_ok=True):
+    """For every e2e job result (made with sim=True: core variant): Lean source semantics vs V8 vs real compiled output,
+    and tgt = src.  Returns dict(cases, skipped{...}, disagreements[...], tables_compared)."""
+    out = {"cases": 0, "calls_considered": 0, "skipped": {}, "disagreements": [], "tables_compared": 0, "outcomes": {}}
+    lines, plan = [], []
+    for res in results:
+        if res.get("error") or not res.get("builds") or res["builds"][0]["real"]["instantiate"] != ("ok",):
+            continue
+        m, b, imp, exports = load_module(res["spec"])
+        calls = [(n.encode("latin-1"), [(t, int(v)) for t, v in a]) for n, a in res["calls_made"]]
+        try:
+            ls, runs, elem_at = sim_lines(env.join, m, imp, calls, exports)
+        except et.Unsupported:
+            out["skipped"]["module-outside-emit-model"] = out["skipped"].get("module-outside-emit-model", 0) + 1
+            continue
+        out["calls_considered"] += len(calls)
+        out["runs_whose_call_graph_has_callees"] = out.get("runs_whose_call_graph_has_callees", 0) + sim_lines.last_callers[0]
+        out["skipped"]["static-call-graph-leaves-core"] = out["skipped"].get("static-call-graph-leaves-core", 0) + len(calls) - len(runs)
+        plan.append((res, len(lines), runs, elem_at))
+        lines += ls
+    if not (lines and driver_ok and env.driver):
+        return out
+    ans = vlib.DriverProc(env.driver).batch(lines, timeout=3600)
+    for res, base, runs, elem_at in plan:
+        real = res["builds"][0]["real"]
+        v8r = res["v8"]["results"]
+        if elem_at is not None and real.get("table") is not None:
+            a = ans[base + elem_at]
+            if a.startswith("tbl"):
+                mt = [None if x == "-" else int(x) for x in a[4:].split(",")] if a[4:] else []
+                out["tables_compared"] += 1
+                if mt != list(real["table"]):
+                    out["disagreements"].append({"module": res["id"], "what": "E elem (Model.initTable) vs table of the real instance",
+                                                 "model": mt, "real": real["table"]})
+            else:
+                out["disagreements"].append({"module": res["id"], "what": "E elem", "model": a[:200]})
+        for li, cn in runs:
+            a = ans[base + li]
+            if not a.startswith("src "):
+                out["skipped"]["driver:" + a[:24]] = out["skipped"].get("driver:" + a[:24], 0) + 1
+                continue
+            src_s, _, tgt_s = a[4:].partition(" | tgt ")
+            src = parse_sim_out(src_s)
+            if src is None:
+                k = "src:" + " ".join(src_s.split()[:2])
+                out["skipped"][k] = out["skipped"].get(k, 0) + 1
+                continue
+            out["cases"] += 1
+            ok = src[0] if src[0] != "trap" else "trap:" + src[1]
+            out["outcomes"][ok] = out["outcomes"].get(ok, 0) + 1
+            tgt = parse_sim_out(tgt_s)
+            v = tuple(v8r[cn]) if cn < len(v8r) else None
+            r = real["results"][cn] if cn < len(real["results"]) else None
+            v = (v[0], [tuple(x) for x in v[1]]) if v and v[0] == "val" else v
+            r = (r[0], [tuple(x) for x in r[1]]) if r and r[0] == "val" else (tuple(r) if r else r)
+            bad = []
+            if tgt is None or not (tgt == src or e2e.same_result(tgt, src)):
+                bad.append("tgt != src")
+            if v is None or not e2e.same_result(src, v):
+                bad.append("src != V8")
+            if r is None or not e2e.same_result(r, src):
+                bad.append("src != real")
+            if bad:
+                out["disagreements"].append({"module": res["id"], "call": res["calls_made"][cn], "what": ", ".join(bad),
+                                             "src": src_s, "tgt": tgt_s, "v8": v, "real": r})
+    return out
